@@ -29,6 +29,12 @@ means for the hook calls of one node is `node_language`.
                               run where child `2#1` is still started when `run()` returns its sibling's stop error.
 * `swRun_no_violation`, `swRun_clean_at_return`, `swRun_clean_at_release` : the same for `switch_` (the replaced
                               branch is stopped before the new one starts; a failing stop / start of a branch change).
+* `reduce_run_no_violation`, `reduce_clean_at_return`, `reduce_clean_at_release` : the same for the combiner graphs of
+                              `reduce_` (created by a structural change or a capacity growth, rolled back when a
+                              sibling's start throws, retired by a shrink or a growth, stopped by the parent's stop).
+* `reduce_stop_error_reaches_caller` : with no earlier failure `run()` reports the first error of the stop scan over the
+                              live combiners, and that IS an error whenever a live combiner has a node whose stop hook
+                              throws (`removeAllFrom_err_of_throw`, `stopLoop_err_of_throw`).
 
 Technique: the invariant `Inv` (started entries ↔ started nodes in the ledger, distinct instances, unused generations
 are fresh) is preserved by every operation of the map node; the per-child facts come from the generic loops of
@@ -1802,6 +1808,36 @@ example :
       = [.hS, .hE, .hX] ∧
     proj ⟨2, 1⟩ 0 (swRun { n := 2 } (planHooks 4 0) [{ key := some 1, ticked := true }, { key := some 2, ticked := true }] 0).ret.w.tr
       = [.hS, .hX] := by
+  decide
+
+/-- reduce_: two combiners (heap positions 0 and 1 of bank 0 = slots 0 and 2); the stop of the second one (ordinal 2)
+    throws at the parent's stop and is the ONLY fault: `run()` reports it, and both combiners are stopped at the return -/
+example :
+    (redRun { n := 2 } (planHooks 0 2) [{ create := [0, 2], ticked := [2, 0] }] 0).err = some "stop" ∧
+    (redRunCycles { n := 2 } (planHooks 0 2) [{ create := [0, 2], ticked := [2, 0] }] 0 { m := { w := { u := 0 } } }).2 = none ∧
+    proj ⟨1, 1⟩ 0 (redRun { n := 2 } (planHooks 0 2) [{ create := [0, 2], ticked := [2, 0] }] 0).ret.w.tr = [.hS, .hE, .hX] ∧
+    proj ⟨2, 1⟩ 1 (redRun { n := 2 } (planHooks 0 2) [{ create := [0, 2], ticked := [2, 0] }] 0).ret.w.tr = [.hS, .hE, .hXf] := by
+  decide
+
+/-- reduce_: a capacity growth retires the first generation (ordinals 1, 2); the stop fault of the RETIRED combiner 1 is
+    swallowed by the retire path, the run ends normally with the four combiners of the new generation stopped -/
+example :
+    (redRun { n := 1 } (planHooks 0 1)
+      [{ create := [0, 2], ticked := [2, 0] }, { create := [1, 3, 7, 9], retire := [0, 2], ticked := [9, 7, 3, 1] }] 0).err = none ∧
+    proj ⟨1, 1⟩ 0 (redRun { n := 1 } (planHooks 0 1)
+      [{ create := [0, 2], ticked := [2, 0] }, { create := [1, 3, 7, 9], retire := [0, 2], ticked := [9, 7, 3, 1] }] 0).ret.w.tr
+      = [.hS, .hE, .hXf] ∧
+    proj ⟨6, 1⟩ 0 (redRun { n := 1 } (planHooks 0 1)
+      [{ create := [0, 2], ticked := [2, 0] }, { create := [1, 3, 7, 9], retire := [0, 2], ticked := [9, 7, 3, 1] }] 0).ret.w.tr
+      = [.hS, .hE, .hX] := by
+  decide
+
+/-- reduce_: the start of the second created combiner throws (start call 3): the rollback guard stops the first one,
+    the start error is what `run()` reports -/
+example :
+    (redRun { n := 2 } (planHooks 3 0) [{ create := [0, 2], ticked := [2, 0] }] 0).err = some "start" ∧
+    proj ⟨1, 1⟩ 1 (redRun { n := 2 } (planHooks 3 0) [{ create := [0, 2], ticked := [2, 0] }] 0).ret.w.tr = [.hS, .hX] ∧
+    proj ⟨2, 1⟩ 0 (redRun { n := 2 } (planHooks 3 0) [{ create := [0, 2], ticked := [2, 0] }] 0).ret.w.tr = [.hSf] := by
   decide
 
 end HgVerif.DynLife
